@@ -1,6 +1,7 @@
 package sim
 
 import (
+	"encoding/json"
 	"errors"
 	"fmt"
 	"sort"
@@ -334,6 +335,9 @@ func (s *Sim) DriveHand(h *Hand) *Hand {
 // gate, pause, or (closed / released / defect) nothing.
 func (s *Sim) awaitFence(h *Hand) *Hand {
 	wait := s.StepWait
+	if s.FenceWait > 0 {
+		wait = s.FenceWait
+	}
 	if s.Cfg.Interval > 0 {
 		wait += time.Duration(s.Cfg.Interval) * time.Second
 	}
@@ -393,7 +397,8 @@ func (s *Sim) handleDecision(h *Hand, d *Decision) bool {
 		}
 		if len(d.Asked) == 0 {
 			// nobody asked: the engine waits for nobody; it will only move by timeout
-			s.Stall = "group request with nobody asked (" + d.Kind + ")"
+			pj, _ := json.Marshal(gs.Players)
+			s.Stall = "group request with nobody asked (" + d.Kind + "): blinds " + fmt.Sprintf("%+v", gs.Meta.Blind) + " players " + string(pj)
 			return false
 		}
 		perm := choose.Perm(s.Ch, "resp.order", len(d.Asked))
